@@ -41,11 +41,14 @@ func (m *vModel) sorted() []*vEnt {
 }
 
 func vValue(k string) []byte {
-	switch vrt.Choose(k+".kind", 3) {
+	switch vrt.Choose(k+".kind", 4) {
 	case 0:
 		return nil
 	case 1:
 		return []byte{}
+	case 3:
+		// a value longer than key plus any other value: the size estimate must survive shrinking overwrites
+		return []byte{7, 8, 9}
 	}
 	return []byte{vrt.Byte(k)}
 }
